@@ -915,6 +915,20 @@ func (dsc *dataStoreCommand) restore(keyName, serializedData string, ttl int64, 
 		return
 	}
 
+	// only string values are serialized by dump: the payload is the type,
+	// the value length plus one, and exactly that many value bytes
+	if len(content) < 6 || !flagHasOne(bitflags(content[1]), FLAG_KEY_TYPE_STRING) {
+		output.data = respErrorString("ERR Bad data format")
+		return
+	}
+	valueLen := binary.BigEndian.Uint32(content[2:6])
+	if valueLen == 0 || uint64(valueLen)-1 != uint64(len(content)-6) {
+		output.data = respErrorString("ERR Bad data format")
+		return
+	}
+	serialBytes := make([]byte, len(content)-6)
+	copy(serialBytes, content[6:])
+
 	var expiration time.Time
 	if ttl != 0 {
 		if absttl {
@@ -937,14 +951,8 @@ func (dsc *dataStoreCommand) restore(keyName, serializedData string, ttl int64, 
 		}
 	}
 
-	len := binary.BigEndian.Uint32(content[2:6])
-	var serialBytes []byte
-	if len > 0 {
-		serialBytes = content[6 : 6+len-1]
-	}
-
 	newSk := dsc.ds.newStoreKeyUnlocked(keyName)
-	newSk.flags = bitflags(content[1])
+	newSk.flags = FLAG_KEY_TYPE_STRING
 	newSk.expiresAt = expiration
 	newSk.payload = serialBytes
 
@@ -3065,8 +3073,9 @@ func (dsc *dataStoreCommand) sort(sourceKeyName, byPattern, destKeyName string, 
 			// convert set (a hash table) into a value array
 			vals = make([]sortVal, 0, ss.count)
 			for i := ss.createIterator(); i.next(); {
+				// a set member is the key of its table entry
 				sv := sortVal{
-					data: i.value.(string),
+					data: i.key,
 				}
 				vals = append(vals, sv)
 			}
